@@ -173,7 +173,7 @@ def _run_shard(args):
             dict(mod.extra_phases)[phase](ctx)
         return ("ok", ctx.result())
     except BaseException:
-        return ("err", "shard %d phase %s:\n%s" % (shard, phase, traceback.format_exc()))
+        return ("err", "shard %d phase %s:\n%s" % (shard, phase, traceback.format_exc()[-3000:]))
 
 
 def load_known(prop):
@@ -293,7 +293,7 @@ def main(argv=None):
         results = pool.map(_run_shard, jobs, chunksize=1)
     errs = [r[1] for r in results if r[0] == "err"]
     if errs:
-        print("HARNESS-ERROR property=%s\n%s" % (prop, "\n".join(errs[:3])), file=sys.stderr)
+        print("HARNESS-ERROR property=%s\n%s" % (prop, "\n".join(errs[:2])), file=sys.stderr)
         return 2
     evaluations = 0
     nontrivial = set()
